@@ -2001,6 +2001,8 @@ class AndNegMacro(Macro):
                 expected_conj.append(Not(conj.arg))
                 break
             conj = conj.arg
+        else:
+            expected_conj.append(Not(conj))
         if neg_disjs != tuple(expected_conj):
             raise VeriTException("and_neg", "Unexpected goal")
         return Thm(Or(*args))
